@@ -735,6 +735,23 @@ func genPersist(id int) O {
 				ms = append(ms, map[string]interface{}{"n": pick([]interface{}{float64(3), float64(5), float64(7), 2.5, float64(0)})})
 			}
 		}
+		if p(0.2) {
+			// the diagnostic bindings of the error node, inspected by a later pattern
+			a = &mach.ASpec{Nodes: map[string]*mach.ANode{
+				"n0":    {BType: "message", Branches: []mach.ABranch{{Target: "n1"}}},
+				"n1":    {Act: []mach.Op{{Name: "set", K: "seen", V: pick(vals)}, {Name: "throw"}}, BType: "bindings", Branches: []mach.ABranch{{Target: "n0"}}},
+				"error": {BType: "message", Branches: []mach.ABranch{{Target: "n3"}}},
+				"n3": {BType: "bindings", Branches: []mach.ABranch{
+					{HasPat: true, Pat: map[string]interface{}{"lastBindings": map[string]interface{}{"was": "?w"}}, Target: "n4"},
+					{HasPat: true, Pat: map[string]interface{}{"lastBindings": map[string]interface{}{}}, Target: "n2"}, {Target: "n0"}}},
+				"n4": {Act: []mach.Op{{Name: "emitb", K: "?w"}}, BType: "bindings", Branches: []mach.ABranch{{Target: "n2"}}},
+				"n2": {BType: "message", Branches: []mach.ABranch{{Target: "n0"}}},
+			}}
+			if p(0.5) {
+				a.AEB = true
+				a.Nodes["n1"].Branches = []mach.ABranch{{HasPat: true, Pat: map[string]interface{}{"nope": 1.0}, Target: "n0"}}
+			}
+		}
 		for len(ms) < 3 {
 			ms = append(ms, pick(msgs))
 		}
